@@ -568,6 +568,50 @@ func vfScenarios() []*vfScenario {
 			threads: []func(*vfEnv, string){putCAS(A), putCAS(B), putCAS(C)},
 			finals:  []vfFinal{{cache.CAS, A.hash}, {cache.CAS, B.hash}, {cache.CAS, C.hash}}})
 
+		// C17: hard limit with the remover arbitrarily delayed. Two blocks fit;
+		// the limit allows one block of not-yet-deleted files.
+		D := vfMkBlob("D", 3000, true)
+		for _, hl := range []struct {
+			tag  string
+			hard int64
+		}{{"unset", 0}, {"max", 8192}, {"max+1blk", 12288}, {"max+2blk", 16384}} {
+			hl := hl
+			out = append(out, &vfScenario{name: "S17-hardlimit-" + hl.tag + "/" + mode, mode: mode, maxSize: 8192, hard: hl.hard, pressure: true, atomics: true,
+				setup: func(e *vfEnv) {
+					e.put("SETUP", cache.CAS, A.hash, A.data)
+					e.put("SETUP", cache.CAS, B.hash, B.data)
+					e.legal("cas/"+A.hash, A.data)
+					e.legal("cas/"+B.hash, B.data)
+				},
+				threads: []func(*vfEnv, string){putCAS(C), putCAS(D), func(e *vfEnv, th string) { e.contains(th, cache.CAS, B.hash, int64(len(B.data))) }},
+				oracle: func(e *vfEnv) {
+					for _, op := range e.hist {
+						if op.Op == "put" && op.Res == "err507" {
+							if hl.hard == 0 {
+								e.violate("C17 refused without hard limit", "upload %s by %s refused with 507 although max_size_hard_limit is not set and reservations (%d+%d) fit in max_size", op.Key[:10], op.Thread, 3000, 3000)
+							}
+						}
+						if op.Op == "put" && op.err != nil && op.Res != "err507" {
+							e.violate("C17 refusal with wrong status", "upload refused with %s instead of 507", op.Res)
+						}
+					}
+					// after the backlog drained every refused upload succeeds when
+					// retried, provided it fits under the limit next to what is accounted
+					for _, op := range e.hist {
+						if op.Op == "put" && op.Res == "err507" && op.Thread != "RETRY" {
+							st := VfSnapshot(e.cc)
+							fits := hl.hard == 0 || st.CurrentSize+st.QueuedBytes+int64(len(op.content)) <= hl.hard
+							r := e.put("RETRY", cache.CAS, op.Key[4:], op.content)
+							vfRunEvictorInline(e.c)
+							if fits && r.err != nil {
+								e.violate("C17 retry after drain refused", "upload %s refused again after the deletions caught up (accounted %d, backlog %d, limit %d): %v", op.Key[:10], st.CurrentSize, st.QueuedBytes, hl.hard, r.err)
+							}
+						}
+					}
+				},
+				finals: []vfFinal{{cache.CAS, A.hash}, {cache.CAS, B.hash}, {cache.CAS, C.hash}, {cache.CAS, D.hash}}})
+		}
+
 		out = append(out, &vfScenario{name: "S10-contains-vs-overwrite/" + mode, mode: mode, maxSize: 1 << 20,
 			setup: func(e *vfEnv) {
 				e.put("SETUP", cache.CAS, A.hash, A.data)
